@@ -113,7 +113,13 @@ def epoch_history(ctx, rng, n):
                 if (y_, m_) == (1582, 10) and 5 <= d_ <= 14:
                     d_ = 15
                 v = [y_, m_, d_ + rng.choice([0.0, 0.25])]
-                e.set(*v); steps.append(['set', v])
+                steps.append(['set', v])
+                try:
+                    e.set(*v)
+                except Exception as ex:   # noqa: a valid civil date refused
+                    ctx.predicate('object_history_consistent', False, ['Epoch', j0, list(steps)],
+                                  {'mutator_raised': repr(ex)[:120], 'valid_date': v}, 'history/Epoch')
+                    break
             else:
                 v = rng.uniform(-400, 400); e += v; steps.append(['iadd', v])
             fresh = Epoch()
